@@ -230,6 +230,8 @@ pub struct SinkState {
     pub unflushed: u64,
     /// fail the write call with this 1-based number
     pub fail_write_at: Option<u64>,
+    /// return Ok(0) (accept nothing, no error) at the write call with this 1-based number
+    pub zero_at: Option<u64>,
     /// fail every flush
     pub fail_flush: bool,
     /// accept at most this many bytes per write call (0 = all)
@@ -297,6 +299,10 @@ impl Write for SharedSink {
             s.faults_fired += 1;
             s.errored = true;
             return Err(io::Error::new(s.fail_kind.unwrap_or(io::ErrorKind::Other), "injected write fault"));
+        }
+        if s.zero_at == Some(s.write_calls) && !buf.is_empty() {
+            s.faults_fired += 1;
+            return Ok(0);
         }
         let mut n = buf.len();
         if s.short > 0 {
